@@ -405,6 +405,78 @@ theorem head_no_body (r : Req) (hh : r.isHead = true) : (respond r).body = .empt
   · unfold etagPhase; simp only []; split <;> exact key _
   · unfold etagPhase; simp only []; split <;> exact key _
 
+/-- **End to end.**  A file on HTTP/1.1 whose validators dictate nothing, asked with any header of the
+    byte-range grammar, answers exactly what the statement prescribes for those specs. -/
+theorem file_range_end_to_end (r : Req) (hk : r.kind = .file) (h11 : r.proto11 = true)
+    (hl : r.lenKnown = true) (hd : dictatedFile r = false) (h : Header) (wf : h.WF)
+    (hr : r.range = some h.render) :
+    respond r = finish r (servedResp (specServe (h.items.map PSpec.spec) r.content)
+      (if servedStatus (specServe (h.items.map PSpec.spec) r.content) = 416 then none
+       else etagOf r (servedStatus (specServe (h.items.map PSpec.spec) r.content)))) := by
+  have := file_not_dictated_full r hk hd
+  rw [h11, hl, hr, ranges_conform h wf r.content] at this
+  exact this
+
+/-- **HTTP/1.0 requests always get the whole entity** (when no validator dictates otherwise),
+    whatever the Range header says. -/
+theorem file_http10_whole_entity (r : Req) (hk : r.kind = .file) (h10 : r.proto11 = false)
+    (hd : dictatedFile r = false) (hh : r.isHead = false) :
+    (respond r).status = 200 ∧ (respond r).body = .bytes r.content ∧
+      (respond r).contentRange = none ∧ (respond r).contentLength = some r.content.length := by
+  have := file_not_dictated_full r hk hd
+  rw [h10, http10_whole] at this
+  rw [this]
+  simp [finish, hh, servedResp, servedStatus]
+
+/-- does any header dictate something, for a handler-generated 200? -/
+def dictatedGen (r : Req) : Bool :=
+  (r.callSince && (sinceFails r.lastmod r.ius || sinceHolds r.lastmod r.ims)) ||
+  (r.etagsOn && (imFails (etagOf r 200) r.im || inmMatches (etagOf r 200) r.inm))
+
+/-- 304 / 412 exactly when dictated (handler-generated 200 with autotags or its own validators) -/
+theorem gen_conditional_iff_dictated (r : Req) (hk : r.kind = .gen) (h200 : r.baseStatus = 200) :
+    ((respond r).status = 304 ∨ (respond r).status = 412) ↔ dictatedGen r = true := by
+  rw [respond_gen_table r hk (by rw [h200]; decide)]
+  unfold genTable dictatedGen
+  simp only [h200]
+  generalize sinceFails r.lastmod r.ius = a
+  generalize sinceHolds r.lastmod r.ims = b
+  generalize imFails (etagOf r 200) r.im = d
+  generalize inmMatches (etagOf r 200) r.inm = f
+  generalize r.etagsOn = c
+  generalize r.callSince = k
+  generalize hg : r.getHead = g
+  cases a <;> cases b <;> cases c <;> cases d <;> cases f <;> cases g <;> cases k <;>
+    simp [conditionalResp, nmVerdict, plainResp, noBodyStatus]
+
+/-- …and the full 200 otherwise -/
+theorem gen_not_dictated_full (r : Req) (hk : r.kind = .gen) (h200 : r.baseStatus = 200)
+    (hd : dictatedGen r = false) (hh : r.isHead = false) :
+    respond r = ⟨200, none, some r.content.length, etagOf r 200, .bytes r.content⟩ := by
+  rw [respond_gen_table r hk (by rw [h200]; decide)]
+  unfold genTable
+  unfold dictatedGen at hd
+  simp only [h200]
+  simp only [Bool.or_eq_false_iff, Bool.and_eq_false_iff] at hd
+  obtain ⟨h1, h2⟩ := hd
+  have e1 : (r.callSince && sinceFails r.lastmod r.ius) = false := by
+    rcases h1 with h | h
+    · simp [h]
+    · simp [h.1]
+  have e2 : (r.callSince && sinceHolds r.lastmod r.ims) = false := by
+    rcases h1 with h | h
+    · simp [h]
+    · simp [h.2]
+  have e3 : (r.etagsOn && imFails (etagOf r 200) r.im) = false := by
+    rcases h2 with h | h
+    · simp [h]
+    · simp [h.1]
+  have e4 : (r.etagsOn && inmMatches (etagOf r 200) r.inm) = false := by
+    rcases h2 with h | h
+    · simp [h]
+    · simp [h.2]
+  simp [e1, e2, e3, e4, finish, hh, plainResp, noBodyStatus]
+
 /-! ### obligations over the tables regenerated from the live modules -/
 
 /-- every RFC 2616 §7.1 entity header is stripped from a 304 by `HTTPRedirect.set_response` -/
